@@ -23,6 +23,8 @@ TEXT = {
          "contract-based deductive verification: Verus contracts spliced into the real functions of lines.rs/core.rs/glue.rs extracted from /repo on every run"),
  'C03': ("Deductive proof (Verus/Z3) of the grep-model bookkeeping of the searcher for all inputs: delivery order/uniqueness as preconditions of every sink_* call, true byte offset and 1-based line number of every event (count_lines, roll rebasing), separator logic, context reach, byte count of a completed slice search; line-location functions (locate, preceding, LineStep) proved against functional specs.",
          "contract-based deductive verification (Verus), functional specs for lines.rs, representation invariant + event coordinates for Core"),
+ 'C13': ("Deductive proof (Verus/Z3) of the multi-line strategy for all inputs and every Matcher satisfying the trait contract: the next match is the leftmost match at or after the position over the WHOLE input (postcondition taken from the property; it exposed the sub-slice defect now fixed), advance, the merge rule for touching/overlapping line ranges, delivery of a pending range exactly when the next match's lines start after it, protocol and ordering; one listed known finding for inverted mode.",
+         "contract-based deductive verification (Verus) of MultiLine::{find,advance,sink,sink_matched_inverted,sink_matched,sink_context,run}"),
  'C14': ("Deductive proof (Verus/Z3) that, with binary detection on, the slice strategies never deliver a match or context range containing the quit byte and that the quit byte in an examined range always stops the caller (detect_binary, sink_* postconditions).",
          "contract-based deductive verification (Verus) of Core::detect_binary and the sink_* functions"),
  'C16': ("Deductive proof (Verus/Z3) of the Sink protocol: 'not refused, not errored, not finished' is a precondition of every Sink method on the trait, hence an obligation at every call site in core.rs/glue.rs for every stop index; run functions are proved to signal finish on every Ok return and never after a sink error.",
